@@ -208,8 +208,9 @@ impl Controller for Ctl {
             }
         };
         let id = inner.tasks.len();
-        inner.wake_seq += 1;
-        let seq = inner.wake_seq;
+        // Wake order key: (step, task id). Tasks woken during the same scheduling step are ordered
+        // by task id, so the order in which a poll wakes others (e.g. HashMap drop order) is irrelevant.
+        let seq = ((inner.step as u64) << 24) | id as u64;
         inner.tasks.push(TaskInfo { name, tag, state: TState::Woken(seq), polls: 0, harness });
         id
     }
@@ -221,8 +222,7 @@ impl Controller for Ctl {
         }
         if inner.tasks[id].state == TState::Idle {
             // Polled without a wake through our waker: treat as woken now.
-            inner.wake_seq += 1;
-            let seq = inner.wake_seq;
+            let seq = ((inner.step as u64) << 24) | id as u64;
             inner.tasks[id].state = TState::Woken(seq);
         }
         if inner.selected.is_none() {
@@ -298,8 +298,7 @@ impl Controller for Ctl {
     fn woken(&self, id: usize) {
         let mut inner = self.inner.lock().unwrap();
         if inner.tasks[id].state == TState::Idle {
-            inner.wake_seq += 1;
-            let seq = inner.wake_seq;
+            let seq = ((inner.step as u64) << 24) | id as u64;
             inner.tasks[id].state = TState::Woken(seq);
         }
     }
